@@ -56,7 +56,12 @@ MUT = {
     "lookup-count-off-by-one": lambda: sub(GEN, "(itemId < snoopy_genericregistry_getCount(regArray))", "(itemId <= snoopy_genericregistry_getCount(regArray))"),
     "call-through-wrong-array": lambda: sub(FL, "    return snoopy_filterregistry_ptrs[filterId](filterArg);\n}\n\n\n\n/*\n * callByName", "    return snoopy_filterregistry_ptrs[filterId + 1](filterArg);\n}\n\n\n\n/*\n * callByName"),
     "configure-switch-renamed": lambda: sub("configure.ac", "SNOOPY_CONFIGURE_FILTER_ENABLE( [only_tty],", "SNOOPY_CONFIGURE_FILTER_ENABLE( [only_ttys],"),
+    "else-branch-in-names": lambda: sub(DS, '#ifdef SNOOPY_CONF_DATASOURCE_ENABLED_cwd\n    "cwd",\n#endif\n', '#ifdef SNOOPY_CONF_DATASOURCE_ENABLED_cwd\n    "cwd",\n#else\n    "cwd_disabled",\n#endif\n'),
+    "lookup-loop-rewritten-wrongly": lambda: sub(GEN, "    for (int i=0 ; 0 != strcmp(regArray[i], \"\") ; i++) {\n        if (strcmp(regArray[i], itemName) == 0) {\n            return i;\n        }\n    }\n\n    /* Not found */\n    return -1;",
+                                                 "    int found = -1;\n    for (int i=0 ; 0 != strcmp(regArray[i], \"\") ; i++) {\n        if (strcmp(regArray[i], itemName) == 0) {\n            found = i;\n        }\n    }\n    return found;"),
     # --- harmless
+    "harmless-nested-as-conjunction": lambda: (sub(DS, '#ifdef SNOOPY_CONF_THREAD_SAFETY_ENABLED\n#ifdef SNOOPY_CONF_DATASOURCE_ENABLED_snoopy_threads\n    "snoopy_threads",\n#endif\n#endif\n', '#if defined(SNOOPY_CONF_THREAD_SAFETY_ENABLED) && defined(SNOOPY_CONF_DATASOURCE_ENABLED_snoopy_threads)\n    "snoopy_threads",\n#endif\n'),
+                                               sub(DS, '#ifdef SNOOPY_CONF_THREAD_SAFETY_ENABLED\n#ifdef SNOOPY_CONF_DATASOURCE_ENABLED_snoopy_threads\n    snoopy_datasource_snoopy_threads,\n#endif\n#endif\n', '#if defined(SNOOPY_CONF_THREAD_SAFETY_ENABLED) && defined(SNOOPY_CONF_DATASOURCE_ENABLED_snoopy_threads)\n    snoopy_datasource_snoopy_threads,\n#endif\n')),
     "harmless-pair-moved": lambda: (sub(DS, '#ifdef SNOOPY_CONF_DATASOURCE_ENABLED_uid\n    "uid",\n#endif\n', ''), sub(DS, "#ifdef SNOOPY_CONF_DATASOURCE_ENABLED_uid\n    snoopy_datasource_uid,\n#endif\n", ""),
                                     sub(DS, 'char* snoopy_datasourceregistry_names[] = {\n', 'char* snoopy_datasourceregistry_names[] = {\n#ifdef SNOOPY_CONF_DATASOURCE_ENABLED_uid\n    "uid",\n#endif\n'),
                                     sub(DS, 'char const * const arg) = {\n', 'char const * const arg) = {\n#ifdef SNOOPY_CONF_DATASOURCE_ENABLED_uid\n    snoopy_datasource_uid,\n#endif\n')),
